@@ -47,7 +47,10 @@ def run_case(kind, execmodel="thread", python=None, mode="sigkill"):
                 break
             time.sleep(0.01)
         time.sleep(0.3)
-        os.kill(pid, signal.SIGKILL)
+        if mode == "sigkill":
+            os.kill(pid, signal.SIGKILL)
+        else:  # "halfclose": the worker's sending side breaks while the process stays alive
+            gw.remote_exec("channel.gateway._io.close_write()")
         for t in ths:
             t.join(40)
         out.update(res)
@@ -87,6 +90,11 @@ def run_case(kind, execmodel="thread", python=None, mode="sigkill"):
     except BaseException as e:  # noqa: BLE001
         out["err"] = name(e) + ": " + str(e)[:100]
     finally:
+        try:
+            if out.get("mode") == "halfclose":
+                os.kill(pid, signal.SIGKILL)
+        except BaseException:  # noqa: BLE001
+            pass
         try:
             group.terminate(timeout=2)
         except BaseException:  # noqa: BLE001
